@@ -73,5 +73,11 @@ HonestViolations(o) ==
   (IF o.issued /\ o.opensRight /\ ~o.certsOK THEN {"certificate-defect"} ELSE {}) \cup
   (IF o.issued /\ o.opensRight /\ ~o.storedEq THEN {"stored-record-differs-from-response"} ELSE {}) \cup
   (IF o.issued /\ o.opensRight /\ ~o.handleOK THEN {"node-refuses-honest-response"} ELSE {}) \cup
-  (IF o.issued /\ o.handleOK /\ (o.clientConfs < 1 \/ ~o.dialOK) THEN {"stored-credentials-do-not-yield-working-client-tls"} ELSE {})
+  (IF o.issued /\ o.handleOK /\ (o.clientConfs < 1 \/ ~o.dialOK) THEN {"stored-credentials-do-not-yield-working-client-tls"} ELSE {}) \cup
+  \* second stage: the same identity fetches again (wrapper flows) with a replaced encryption key; the server may
+  \* refuse, but whatever it answers must be bound to the key and nonce of THAT signed request
+  (IF o.reIssued /\ ~o.reOpensRight THEN {"second-response-does-not-open-with-the-requesting-key"} ELSE {}) \cup
+  (IF o.reIssued /\ o.reOpensOld THEN {"second-response-opens-with-the-replaced-key"} ELSE {}) \cup
+  (IF o.reIssued /\ o.reOpensRight /\ ~o.reEcho THEN {"second-response-does-not-echo-the-nonce"} ELSE {}) \cup
+  (IF o.reIssued /\ o.reOpensRight /\ ~o.reStoredEq THEN {"second-stored-record-differs-from-response"} ELSE {})
 =============================================================================
